@@ -5,8 +5,9 @@ import glob, json, os, shutil, subprocess, sys, tempfile
 V = os.path.dirname(os.path.dirname(os.path.abspath(__file__)))
 seeds = sys.argv[1:] or sorted(os.path.basename(p) for p in glob.glob(os.path.join(V, "seeded", "*-*")))
 props = sorted(os.path.basename(p)[:-3] for p in glob.glob(os.path.join(V, "rules", "C??.py")))
-for s in seeds:
+def one(s):
     d = os.path.join(V, "seeded", s)
+    lines_out = []
     scratch = tempfile.mkdtemp(prefix="econf-seed-")
     try:
         repo = os.path.join(scratch, "repo")
@@ -30,9 +31,20 @@ for s in seeds:
         json.dump(meta, open(os.path.join(d, "meta.json"), "w"), indent=1)
         det = [p for p, v in res.items() if v["exit"] == 1]
         inc = [p for p, v in res.items() if v["exit"] == 2]
-        print("%-8s applies=%s own=%s detected_by=%s inconclusive=%s" % (s, applied, res.get(own, {}).get("exit"), det, inc))
+        lines_out.append("%-8s applies=%s own=%s detected_by=%s inconclusive=%s" % (s, applied, res.get(own, {}).get("exit"), det, inc))
         for p in det:
             for l in res[p]["reports"][:2]:
-                print("      %s: %s" % (p, l[:200]))
+                lines_out.append("      %s: %s" % (p, l[:200]))
+        return (s, applied and res.get(own, {}).get("exit") == 1, "\n".join(lines_out))
     finally:
         shutil.rmtree(scratch, ignore_errors=True)
+
+
+from concurrent.futures import ThreadPoolExecutor
+missed = []
+with ThreadPoolExecutor(max_workers=int(os.environ.get("SEED_JOBS", "6"))) as ex:
+    for s, ok, text in ex.map(one, seeds):
+        print(text, flush=True)
+        if not ok:
+            missed.append(s)
+print("SEEDS: %d checked, %d not detected by their own property's check: %s" % (len(seeds), len(missed), missed))
